@@ -9,14 +9,15 @@ wt=/tmp/sv/wt_$name
 git -C /repo worktree remove --force $wt 2>/dev/null; rm -rf $wt
 git -C /repo worktree add -q --detach $wt HEAD || exit 3
 cd $wt
-cp $src/$demo $dest
+IFS=, read -ra DS <<< "$demo"; IFS=, read -ra DD <<< "$dest"
+for i in "${!DS[@]}"; do cp $src/${DS[$i]} ${DD[$i]}; done
 res=""
-if timeout 900 go test -vet=off -count=1 -run "$rx" $pkg > /tmp/sv/$name.clean.log 2>&1; then res="$res demo_clean=PASS"; else res="$res demo_clean=FAIL"; fi
+if timeout 900 go test -vet=off -count=1 $EXTRA -run "$rx" $pkg > /tmp/sv/$name.clean.log 2>&1; then res="$res demo_clean=PASS"; else res="$res demo_clean=FAIL"; fi
 if git apply $src/patch.diff 2>/dev/null || patch -p1 -F3 -s < $src/patch.diff; then res="$res apply=ok"; else res="$res apply=FAILED"; fi
 git diff -- . ':!*_test.go' > /tmp/sv/$name.rebased.diff
 if go build ./... > /tmp/sv/$name.build.log 2>&1; then res="$res build=ok"; else res="$res build=FAIL"; fi
-if timeout 900 go test -vet=off -count=1 -run "$rx" $pkg > /tmp/sv/$name.patched.log 2>&1; then res="$res demo_patched=PASS"; else res="$res demo_patched=FAIL"; fi
-rm -f $dest
+if timeout 900 go test -vet=off -count=1 $EXTRA -run "$rx" $pkg > /tmp/sv/$name.patched.log 2>&1; then res="$res demo_patched=PASS"; else res="$res demo_patched=FAIL"; fi
+for i in "${!DD[@]}"; do rm -f ${DD[$i]}; done
 if timeout 1500 go test -vet=off -count=1 ./... > /tmp/sv/$name.suite.log 2>&1; then res="$res suite_patched=PASS"; else res="$res suite_patched=FAIL"; fi
 cd /; git -C /repo worktree remove --force $wt
 echo "$src :$res"
